@@ -2240,6 +2240,9 @@ class Body:
                             break
                 if fpr is not None and (("ASSUME", base), fpr) in d:
                     d[(loc, ())] = d[(("ASSUME", base), fpr)]
+                elif fpr and isinstance(d.get((rv[2][0], fpr)), (bool, int)):
+                    # a reference to a component whose value is known stands for that value (`Int(n) => .. *n ..` with n: &i64)
+                    d[(loc, ())] = d[(rv[2][0], fpr)]
                 if rv[1]:
                     kill(rv[2][0])
         t = self.term(b)
@@ -2417,7 +2420,8 @@ class Body:
         """Evaluate this (small, pure) function on constant arguments: {parameter index: constant} -> set of possible results (None = not a constant).
         However the function is written - `==` chains, `match`, `matches!`, helper calls spliced in - only its value on the given input counts."""
         out = set()
-        env0 = tuple(sorted((((i, ()), v) for i, v in args.items()), key=repr))
+        # a key may also be (parameter, path): ("variant" for the variant index of an enum argument, (0,) for its payload - also behind a reference)
+        env0 = tuple(sorted((((i if isinstance(i, tuple) else (i, ())), v) for i, v in args.items()), key=repr))
         seen = set()
         dq = deque([(0, env0)])
         exits = set(self.exits())
